@@ -463,16 +463,38 @@ static json_t *export_jwk(json_t *kd)
 	v = json_object_get(kd, "extra");
 	if (v && json_is_array(v)) {
 		size_t i; json_t *p;
-		json_array_foreach(v, i, p)
-			json_object_set(o, json_string_value(json_array_get(p, 0)), json_array_get(p, 1));
+		json_array_foreach(v, i, p) {
+			/* a value spelled "#json:<text>" is that JSON value (true, 17, null, {"a":1}), anything else is itself */
+			json_t *xv = json_array_get(p, 1);
+			const char *xs = json_is_string(xv) ? json_string_value(xv) : NULL;
+			if (xs && !strncmp(xs, "#json:", 6)) {
+				json_error_t e; json_t *jv2 = json_loads(xs + 6, JSON_DECODE_ANY, &e);
+				if (jv2) { json_object_set_new(o, json_string_value(json_array_get(p, 0)), jv2); continue; }
+			}
+			json_object_set(o, json_string_value(json_array_get(p, 0)), xv);
+		}
 	}
 	/* defects (C07) */
 	v = json_object_get(kd, "defect");
 	if (v && json_is_array(v)) {
 		size_t i; json_t *p;
 		json_array_foreach(v, i, p)
-			apply_defect(o, json_string_value(json_array_get(p, 0)),
-				     json_string_value(json_array_get(p, 1)));
+		{
+			const char *dm = json_string_value(json_array_get(p, 0)), *dc = json_string_value(json_array_get(p, 1));
+			if (!strcmp(dc, "xother") && !strcmp(kty, "OKP") && strlen(base) > 1 && base[strlen(base) - 1] == 'a') {
+				/* x of ANOTHER key of the same curve (a stale or copied public half next to d) */
+				char ob[64]; EVP_PKEY *ok; unsigned char raw[64]; size_t rl = sizeof raw;
+				snprintf(ob, sizeof ob, "%.*sb", (int)strlen(base) - 1, base);
+				ok = pool_get(ob);
+				if (ok && EVP_PKEY_get_raw_public_key(ok, raw, &rl) == 1) {
+					char *xs = b64u_enc(raw, rl);
+					json_object_set_new(o, "x", json_string(xs));
+					free(xs);
+					continue;
+				}
+			}
+			apply_defect(o, dm, dc);
+		}
 	}
 	return o;
 }
@@ -841,9 +863,13 @@ static json_t *ring_sync(struct ring *r, json_t *kds, json_t *newitems, int with
 	struct irec nu[MAXI];
 	int nn = 0;
 	size_t cnt = r->set ? jwks_item_count(r->set) : 0, newi = 0;
+	const jwk_item_t *ptrs[MAXI];
 	if (cnt > MAXI) die("ring too large");
+	/* read the list from the last index down: the first get after a mutator asks for a HIGH index (an
+	 * implementation that remembers where an earlier walk stopped must not be helped by a walk from 0) */
+	for (size_t i = cnt; i-- > 0; ) ptrs[i] = jwks_item_get(r->set, i);
 	for (size_t i = 0; i < cnt; i++) {
-		const jwk_item_t *p = jwks_item_get(r->set, i);
+		const jwk_item_t *p = ptrs[i];
 		int found = -1;
 		for (int j = 0; j < r->n; j++) if (r->it[j].ptr == p) found = j;
 		if (found >= 0) { nu[nn] = r->it[found]; r->it[found].kd = NULL; }
@@ -1036,6 +1062,27 @@ static void record_fault_site(size_t n)
 		}
 	}
 }
+/* --track-alloc: the application's allocator is not libc's.  Every block handed out through jwt_set_alloc's
+ * malloc is remembered; a block passed to its free from inside a library call that it never handed out was
+ * allocated by someone else (OpenSSL, libc directly): with a real custom allocator that corrupts the heap. */
+static int track_alloc, in_lib;
+#define TRK_N (1u << 21)
+static void *trk_tab[TRK_N];
+static unsigned trk_slot(void *p) { return (unsigned)(((uintptr_t)p >> 4) * 2654435761u) & (TRK_N - 1); }
+static void trk_add(void *p)
+{
+	unsigned i = trk_slot(p);
+	for (unsigned n = 0; n < TRK_N; n++, i = (i + 1) & (TRK_N - 1))
+		if (!trk_tab[i] || trk_tab[i] == (void *)1 || trk_tab[i] == p) { trk_tab[i] = p; return; }
+}
+static int trk_del(void *p)
+{
+	unsigned i = trk_slot(p);
+	for (unsigned n = 0; n < TRK_N && trk_tab[i]; n++, i = (i + 1) & (TRK_N - 1))
+		if (trk_tab[i] == p) { trk_tab[i] = (void *)1; return 1; }
+	return 0;
+}
+static void *drv_malloc_raw(size_t n) { void *p = malloc(n); if (p && track_alloc) trk_add(p); return p; }
 static void *drv_malloc(size_t n)
 {
 	if (alloc_armed) {
@@ -1049,13 +1096,20 @@ static void *drv_malloc(size_t n)
 			return NULL;
 		}
 	}
-	return malloc(n);
+	return drv_malloc_raw(n);
 }
-static void drv_free(void *p) { free(p); }
+static void drv_free(void *p)
+{
+	if (track_alloc && p && !trk_del(p) && in_lib) {
+		emit_abort("foreign-free");	/* a block this allocator never handed out was passed to its free() */
+		_exit(66);
+	}
+	free(p);
+}
 static int fault_mode;
 /* arm the fault allocator exactly for the duration of one library call */
-#define LIB(expr) ({ int _sv = alloc_armed; alloc_armed = fault_mode; __typeof__(expr) _r = (expr); alloc_armed = _sv; _r; })
-#define LIBV(stmt) do { int _sv = alloc_armed; alloc_armed = fault_mode; stmt; alloc_armed = _sv; } while (0)
+#define LIB(expr) ({ int _sv = alloc_armed; alloc_armed = fault_mode; in_lib++; __typeof__(expr) _r = (expr); in_lib--; alloc_armed = _sv; _r; })
+#define LIBV(stmt) do { int _sv = alloc_armed; alloc_armed = fault_mode; in_lib++; stmt; in_lib--; alloc_armed = _sv; } while (0)
 
 /* ========================================================= value ops */
 /* Fill a jwt_value_t from a value descriptor.  Returns storage to free. */
@@ -1069,6 +1123,9 @@ static void fill_value(jwt_value_t *jv, json_t *v, struct vstore *vs, int set)
 	json_t *val = json_object_get(v, "val");
 	memset(jv, 0, sizeof *jv);
 	memset(vs, 0, sizeof *vs);
+	/* a reused struct: whatever the previous request left in the value union is still there when a
+	 * narrower member (int bool_val) is assigned - only the member of the request's type is written below */
+	jv->int_val = (stale_turn & 1) ? -1L : (long)0x7fffffff00000000LL;
 	if (!strcmp(name, "~")) jv->name = NULL;
 	else if (!strncmp(name, "#hex:", 5)) { size_t n; vs->name = (char *)hexdec(name + 5, &n); jv->name = vs->name; }
 	else { vs->name = strdup(name); jv->name = vs->name; }
@@ -1076,9 +1133,11 @@ static void fill_value(jwt_value_t *jv, json_t *v, struct vstore *vs, int set)
 	jv->pretty = (int)jint(v, "pretty", 0);
 	if (!strcmp(t, "int")) {
 		jv->type = JWT_VALUE_INT;
+		if (!set) jv->int_val = 0;	/* what jwt_set_GET_INT does */
 		if (set) jv->int_val = json_is_array(val) ? (long)unwide(val) : (long)json_integer_value(val);
 	} else if (!strcmp(t, "str")) {
 		jv->type = JWT_VALUE_STR;
+		if (!set) jv->str_val = NULL;	/* what jwt_set_GET_STR does */
 		if (set) {
 			const char *s = json_is_string(val) ? json_string_value(val) : "~";
 			if (!strcmp(s, "~")) jv->str_val = NULL;
@@ -1087,9 +1146,11 @@ static void fill_value(jwt_value_t *jv, json_t *v, struct vstore *vs, int set)
 		}
 	} else if (!strcmp(t, "bool")) {
 		jv->type = JWT_VALUE_BOOL;
+		if (!set) jv->bool_val = 0;	/* what jwt_set_GET_BOOL does: the int member only */
 		if (set) jv->bool_val = (int)json_integer_value(val);
 	} else if (!strcmp(t, "json")) {
 		jv->type = JWT_VALUE_JSON;
+		if (!set) jv->json_val = NULL;	/* what jwt_set_GET_JSON does */
 		if (set) {
 			const char *s = json_is_string(val) ? json_string_value(val) : "~";
 			if (!strcmp(s, "~")) jv->json_val = NULL;
@@ -2355,6 +2416,7 @@ static void run_case(json_t *c, long idx)
 	cur_case = id; cur_op = -1;
 	case_rng = seed * 0x9e3779b97f4a7c15ULL ^ fnv(id);
 	drv_now = 1700000000;
+	if (track_alloc) jwt_set_alloc(drv_malloc, drv_free);
 	jwt_set_crypto_ops("openssl");
 	stale_turn = 0;
 	ev = json_pack("{s:s,s:s,s:I}", "e", "Case", "id", id, "n", (json_int_t)idx);
@@ -2468,6 +2530,7 @@ int main(int argc, char **argv)
 		else if (!strcmp(argv[i], "--leak-every") && i + 1 < argc) leak_every = atoi(argv[++i]);
 		else if (!strcmp(argv[i], "--timeout") && i + 1 < argc) call_timeout = atoi(argv[++i]);
 		else if (!strcmp(argv[i], "--fault")) do_fault = 1;
+		else if (!strcmp(argv[i], "--track-alloc")) track_alloc = 1;
 		else if (!strcmp(argv[i], "--export-jwk") && i + 1 < argc) { mode_export = "jwk"; mode_arg = argv[++i]; }
 		else if (!strcmp(argv[i], "--export-key") && i + 1 < argc) { mode_export = "key"; mode_arg = argv[++i]; }
 		else if (!strcmp(argv[i], "--genpem") && i + 2 < argc) { mode_gen = argv[++i]; mode_arg = argv[++i]; }
